@@ -455,50 +455,54 @@ func fnPackage(fn *ssa.Function) *ssa.Package {
 // callSSA interprets a call to function fn with arguments args,
 // and lexical environment env, returning its result.
 func (w *world) callSSA(caller *frame, callpos token.Pos, fn *ssa.Function, args []value, env []value) value {
-	if isPkgInit(fn) {
+	m := w.meta(fn)
+	if m.isInit {
 		// package initialisers run lazily and only through ensureInit
 		if w.initDirect != fn {
 			return nil
 		}
 		w.initDirect = nil
 	}
-	if fn.Parent() == nil {
-		name := fn.String()
+	if m.top {
 		if w.trace {
-			fmt.Fprintf(w.traceOut, "%*scall %s\n", w.depth, "", name)
+			fmt.Fprintf(w.traceOut, "%*scall %s\n", w.depth, "", m.name)
 		}
 		// harness intrinsics
-		if in := intrinsics[fn.Name()]; in != nil && strings.HasPrefix(fn.Name(), "verif") {
-			return in(w, caller, fn, args)
+		if m.intrinsic != nil {
+			return m.intrinsic(w, caller, fn, args)
 		}
-		for _, sa := range w.ex.setargs {
-			if strings.HasPrefix(name, sa.prefix) && sa.idx < len(args) {
+		for _, sa := range m.setargs {
+			if sa.idx < len(args) {
 				args = append([]value{}, args...)
 				args[sa.idx] = sa.val
 			}
 		}
 		// harness-declared redirects
-		if to, ok := w.ex.redirects[name]; ok && !w.inRedirect[to] {
-			fn = to
-			name = fn.String()
+		if m.redirect != nil && !w.inRedirect[m.redirect] {
+			fn = m.redirect
+			m = w.meta(fn)
 		}
-		if ext := externals[name]; ext != nil {
-			if r, ok := ext(w, caller, fn, args); ok {
+		if m.ext != nil {
+			if r, ok := m.ext(w, caller, fn, args); ok {
 				return r
 			}
 		}
-		if sum := w.ex.summarize[name]; sum && w.summaryDepth == 0 {
+		if m.summarize && w.summaryDepth == 0 {
 			if r, ok := w.callSummarized(caller, callpos, fn, args); ok {
 				return r
 			}
 		}
 		if fn.Blocks == nil {
-			panic(unsupported("no code for function: " + name))
+			panic(unsupported("no code for function: " + m.name))
 		}
 	}
-	if pkg := fnPackage(fn); pkg != nil {
-		w.ensureInit(pkg)
-		w.noteFunc(fn, pkg)
+	if m.pkg != nil {
+		if !w.inited[m.pkg] {
+			w.ensureInit(m.pkg)
+		}
+		if !w.funcsSeen[fn] {
+			w.noteFunc(fn, m.pkg)
+		}
 	}
 
 	// generic function body?
@@ -561,7 +565,11 @@ func runFrame(fr *frame) {
 			panic(ab) // engine control flow: no target defers, no target recover
 		}
 		if tae, ok := p.(*runtime.TypeAssertionError); ok {
-			panic(engineAbort{kind: abUnsupported, msg: "engine type assertion: " + tae.Error() + " in " + fr.fn.String() + fr.where()})
+			chain := ""
+			for c, k := fr.caller, 0; c != nil && k < 6; c, k = c.caller, k+1 {
+				chain += " <- " + c.fn.Name() + c.where()
+			}
+			panic(engineAbort{kind: abUnsupported, msg: "engine type assertion: " + tae.Error() + " in " + fr.fn.String() + fr.where() + chain})
 		}
 		if s, ok := p.(string); ok {
 			// interp-internal consistency panics
@@ -783,4 +791,47 @@ func (w *world) skipFailedInitialiser(fr *frame, p any) bool {
 		return true
 	}
 	return false
+}
+
+// fnMeta caches what callSSA needs to know about a function.
+type fnMeta struct {
+	name      string
+	top       bool
+	isInit    bool
+	intrinsic intrinsicFn
+	redirect  *ssa.Function
+	ext       externalFn
+	summarize bool
+	setargs   []setArg
+	pkg       *ssa.Package
+}
+
+func (w *world) meta(fn *ssa.Function) *fnMeta {
+	if m, ok := w.metas[fn]; ok {
+		return m
+	}
+	m := &fnMeta{top: fn.Parent() == nil, isInit: isPkgInit(fn), pkg: fnPackage(fn)}
+	if m.top {
+		m.name = fn.String()
+		if in := intrinsics[fn.Name()]; in != nil && strings.HasPrefix(fn.Name(), "verif") {
+			m.intrinsic = in
+		}
+		for _, sa := range w.ex.setargs {
+			if strings.HasPrefix(m.name, sa.prefix) {
+				m.setargs = append(m.setargs, sa)
+			}
+		}
+		m.redirect = w.ex.redirects[m.name]
+		m.ext = externals[m.name]
+		if m.ext == nil {
+			for _, g := range genericExternals {
+				if strings.HasPrefix(m.name, g.prefix) {
+					m.ext = g.fn
+				}
+			}
+		}
+		m.summarize = w.ex.summarize[m.name]
+	}
+	w.metas[fn] = m
+	return m
 }
